@@ -38,11 +38,12 @@ def distance (i j : Nat) : Ex :=
   let p := pos i; let q := pos j
   .sqrt (.add (.add (.powi (.sub p.1 q.1) 2) (.powi (.sub p.2.1 q.2.1) 2)) (.powi (.sub p.2.2 q.2.2) 2))
 
-/-- `coordinates::angle_value(i, j, k, x)`. -/
+/-- `coordinates::angle_value(i, j, k, x)`: the cosine is clamped to `[-1, 1]` before `acos` (rounding can
+push it just outside for collinear atoms). -/
 def angleValue (i j k : Nat) : Ex :=
   let rij := vsub (pos i) (pos j)
   let rkj := vsub (pos k) (pos j)
-  .acos (.div (dot rij rkj) (.mul (len rij) (len rkj)))
+  .acos (.clamp1 (.div (dot rij rkj) (.mul (len rij) (len rkj))))
 
 /-- `dihedrals::phi`. -/
 def phi (i j k l : Nat) : Ex :=
